@@ -159,7 +159,8 @@ def build(ctx, kind, cfg, var=None):
             for i in range(nopts):
                 t = ctx.int("opt%d_type" % i, 0, 6)
                 ctx.assume(member(t, TLV_TYPES))
-                val = ctx.octets("opt%d_val" % i, var.get("optlen", i % 3))
+                lens = var.get("optlens")
+                val = ctx.octets("opt%d_val" % i, lens[i] if lens else var.get("optlen", i % 3))
                 opts.append(CfdpTlv(en(ctx, TlvType, t), val))
                 oref += ref_tlv(t, items_of(val))
                 oinfo.append((t, val))
@@ -284,7 +285,8 @@ def variants(kind, tier):
         return [("eof", dict(acked=4)), ("finished", dict(acked=5))]
     if kind == "metadata":
         out = [("names11", dict(src=(1,), dst=(1,))), ("nonames", dict(src=None, dst=None)), ("empty-names", dict(src=(), dst=())),
-               ("utf8", dict(src=(2,), dst=(1, 1))), ("opts0", dict(nopts=0)), ("opts1", dict(nopts=1, optlen=1)), ("opts2", dict(nopts=2))]
+               ("utf8", dict(src=(2,), dst=(1, 1))), ("opts0", dict(nopts=0)), ("opts1", dict(nopts=1, optlen=1)), ("opts2", dict(nopts=2)),
+               ("opts1-empty", dict(nopts=1, optlen=0)), ("opts2-last-empty", dict(nopts=2, optlens=(2, 0)))]
         if t:
             out += [("utf8-3", dict(src=(3,), dst=(1, 2))), ("opts3", dict(nopts=3)), ("opts2-long", dict(nopts=2, optlen=4)),
                     ("names3-opts1", dict(src=(1, 1, 1), dst=(4,), nopts=1, optlen=0))]
